@@ -1,0 +1,11 @@
+//go:build verif
+
+package bconfig
+
+// VerifE2EAddTransformType adds one more transform type to the table registered by package transform, so that a
+// configuration file can name it. Only compiled with the "verif" build tag; used by the end-to-end verification
+// harness to put a transform that blocks on a harness-owned latch into a pipeline (a stalled pipeline worker).
+// Call it after package transform has been initialised (importing package run is enough).
+func VerifE2EAddTransformType(name string, create func() LogTransformConfig) {
+	getConfigConstructors[LogTransformConfig]()[name] = create
+}
